@@ -3,6 +3,7 @@ package gx
 import (
 	"reflect"
 	"strings"
+	"sync"
 	"unsafe"
 )
 
@@ -10,7 +11,8 @@ import (
 // *engine.GenginePool or *builder.RuleBuilder can serve as a template: every controlled execution
 // works on its own copy instead of paying one rule compilation (~5 ms) per execution.
 //
-// Copied: structs, pointers, slices, maps (aliasing inside the graph is preserved).
+// Copied: structs, pointers, slices, maps (aliasing inside the graph is preserved, including slices
+// that share a backing array).
 // Shared, not copied: compiled rules (everything under internal/base except the KnowledgeContext
 // container, which updates mutate in place), functions, channels, reflect.Value payloads
 // (injected host objects are shared by construction - exactly as with a fresh pool built from the
@@ -19,12 +21,107 @@ import (
 // Each scenario that uses a clone cross-checks it once against a freshly constructed object
 // (same default-schedule outcome) before relying on it.
 func DeepClone(x interface{}) interface{} {
-	c := &cloner{seen: map[unsafe.Pointer]reflect.Value{}}
-	return c.clone(reflect.ValueOf(x)).Interface()
+	v := reflect.ValueOf(x)
+	var root unsafe.Pointer
+	if v.Kind() == reflect.Ptr {
+		root = v.UnsafePointer()
+	}
+	hintMu.Lock()
+	hints := hintCache[root]
+	hintMu.Unlock()
+	for {
+		c := &cloner{seen: map[unsafe.Pointer]reflect.Value{}, hints: hints}
+		out := c.clone(v).Interface()
+		if !c.grew {
+			return out
+		}
+		// two slices of the template share a backing array and the wider one was met second: remember
+		// the merged extent for this template and copy again
+		hints = c.hints
+		if root != nil {
+			hintMu.Lock()
+			hintCache[root] = hints
+			hintMu.Unlock()
+		}
+	}
 }
 
+// Slices that share a backing array in the template (one slice living in the spare capacity of
+// another, two windows of one array) must share one in the copy too. A slice is therefore copied as a
+// window of a copied *region*: the memory its full capacity spans, or a wider extent already known
+// to overlap it. Extents that turn out to overlap regions made earlier in the same copy are merged
+// and remembered per template (hintCache), and the copy is made again with them.
+type extent struct{ start, end uintptr }
+
+type region struct {
+	extent
+	elem reflect.Type
+	d    reflect.Value // copied backing store: slice with len = cap = number of elements
+}
+
+var (
+	hintMu    sync.Mutex
+	hintCache = map[unsafe.Pointer][]extent{}
+)
+
 type cloner struct {
-	seen map[unsafe.Pointer]reflect.Value
+	seen    map[unsafe.Pointer]reflect.Value
+	regions []*region
+	hints   []extent
+	grew    bool
+}
+
+func (c *cloner) cloneSlice(v reflect.Value) reflect.Value {
+	et := v.Type().Elem()
+	sz := et.Size()
+	n := v.Cap()
+	if n == 0 || sz == 0 {
+		return reflect.MakeSlice(v.Type(), v.Len(), v.Cap())
+	}
+	p := v.Pointer()
+	ext := extent{p, p + uintptr(n)*sz}
+	var r *region
+	for _, x := range c.regions {
+		if x.elem == et && x.start <= ext.start && ext.end <= x.end && (ext.start-x.start)%sz == 0 {
+			r = x
+			break
+		}
+	}
+	if r == nil {
+		h := ext
+		for _, x := range c.hints {
+			if x.start <= ext.start && ext.end <= x.end {
+				h = x
+			}
+		}
+		// an earlier region that overlaps without containing: merge, remember, copy again later
+		for _, x := range c.regions {
+			if x.elem == et && x.start < h.end && h.start < x.end {
+				m := h
+				if x.start < m.start {
+					m.start = x.start
+				}
+				if x.end > m.end {
+					m.end = x.end
+				}
+				c.hints = append(c.hints, m)
+				c.grew = true
+			}
+		}
+		cnt := int((h.end - h.start) / sz)
+		r = &region{extent: h, elem: et, d: reflect.MakeSlice(reflect.SliceOf(et), cnt, cnt)}
+		c.regions = append(c.regions, r)
+		src := reflect.NewAt(reflect.ArrayOf(cnt, et), unsafe.Pointer(h.start)).Elem()
+		for i := 0; i < cnt; i++ {
+			r.d.Index(i).Set(c.clone(src.Index(i)))
+		}
+	}
+	off := int((ext.start - r.start) / sz)
+	d := r.d.Slice3(off, off+v.Len(), off+n)
+	if d.Type() != v.Type() {
+		d = d.Convert(v.Type())
+	}
+	return d
 }
 
 func shareType(t reflect.Type) bool {
@@ -90,11 +187,7 @@ func (c *cloner) clone(v reflect.Value) reflect.Value {
 		if v.IsNil() {
 			return v
 		}
-		d := reflect.MakeSlice(v.Type(), v.Len(), v.Cap())
-		for i := 0; i < v.Len(); i++ {
-			d.Index(i).Set(c.clone(v.Index(i)))
-		}
-		return d
+		return c.cloneSlice(v)
 	case reflect.Map:
 		if v.IsNil() {
 			return v
